@@ -303,6 +303,25 @@ theorem slide_per_frame_agrees_with_frame_position (channels : List (Option Int)
     ∃ l ch p, iterTiledFull channels planes tr tc R C g sbs = .ok l ∧ l[n]? = some (ch, p, cp, rp, x, y, z) :=
   slidePerFrame_framePosition channels planes tr tc R C g sbs L h n cp rp x y z hn
 
+/-- **`five_descriptions_agree`** (the image classes' own position look-up ↔ the wrapper).  Row `n` of the frame table `_Image`
+derives for a TILED_FULL image — any number of channels and focal planes — and the `n`-th plane position of
+`compute_plane_position_slide_per_frame` — any geometry, spacing between slices, origin — carry the same pixel matrix position,
+and the row points to frame `n`: the look-up the region reads of C04 use and the positions handed to other tools are the same
+tiling, frame by frame.  The (channel, column, row) triples of the per-frame data are channels × focal planes × the row-major grid
+and do not depend on the geometry at all. -/
+theorem frame_table_agrees_with_plane_positions (channels : List (Option Int)) (planes tr tc R C : Int) (g : Geo) (sbs : Rat)
+    (hr : 1 ≤ tr) (hc : 1 ≤ tc) (hR : 1 ≤ R) (hC : 1 ≤ C) :
+    (∃ lut L, tiledFullLut channels planes tr tc R C = .ok lut ∧ slidePerFrame channels planes tr tc R C g sbs = .ok L ∧
+      lut.length = L.length ∧
+      ∀ (n : Nat) (row : LutRow) (cp rp : Int) (x y z : Rat), lut[n]? = some row → L[n]? = some (cp, rp, x, y, z) →
+        row.rp = rp ∧ row.cp = cp ∧ row.fi = n) ∧
+    (∃ l, iterTiledFull channels planes tr tc R C g sbs = .ok l ∧
+      l.map (fun x => (x.1, x.2.2.1, x.2.2.2.1)) =
+        (channels.flatMap (fun ch => (iota planes).map (fun p => (ch, p + 1)))).flatMap (fun chp =>
+          (gridPos R C tr tc).map (fun p => (chp.1, p.2, p.1)))) :=
+  ⟨tiledFullLut_agrees_with_slidePerFrame channels planes tr tc R C g sbs hr hc hR hC,
+   iterTiledFull_offsets channels planes tr tc R C g sbs hr hc hR hC⟩
+
 /-- **Bridge (z origin of `compute_plane_position_tiled_full`, T7k).**  The model computes the z origin of the tile with the
 REGENERATED expression: `float(slice_index - 1) * spacing_between_slices` when both are given, 0 when neither is, TypeError when
 exactly one is (the `sum(...) not in (0, 2)` test is pinned and translated by its meaning). -/
